@@ -125,7 +125,7 @@ class Color488Code(StabilizerCode):
         logicals.append(operator)
 
         operator = dict()
-        for y in range(1, 8*Lx+4, 2):
+        for y in range(1, 8*Ly+4, 2):
             if self.is_qubit((7, y)):
                 operator[(7, y)] = 'X'
         logicals.append(operator)
@@ -137,7 +137,7 @@ class Color488Code(StabilizerCode):
         logicals.append(operator)
 
         operator = dict()
-        for x in range(1, 8*Ly+4, 2):
+        for x in range(1, 8*Lx+4, 2):
             if self.is_qubit((x, 1)):
                 operator[(x, 1)] = 'X'
         logicals.append(operator)
@@ -155,7 +155,7 @@ class Color488Code(StabilizerCode):
         logicals.append(operator)
 
         operator = dict()
-        for x in range(1, 8*Ly+4, 2):
+        for x in range(1, 8*Lx+4, 2):
             if self.is_qubit((x, 1)):
                 operator[(x, 1)] = 'Z'
         logicals.append(operator)
@@ -167,7 +167,7 @@ class Color488Code(StabilizerCode):
         logicals.append(operator)
 
         operator = dict()
-        for y in range(1, 8*Lx+4, 2):
+        for y in range(1, 8*Ly+4, 2):
             if self.is_qubit((7, y)):
                 operator[(7, y)] = 'Z'
         logicals.append(operator)
